@@ -26,6 +26,8 @@ _CORPUS = [
                             ["b", "succeeded", False]], "runahead": 0, "queues": {},
      "seed": 8, "fail_rate": 0, "custom_rate": 1.0, "disorder": 0, "ops": [{"tick": 9, "cmd": "restart", "mode": "now"}],
      "baseline": True},
+    # fixed finding: the first dependent instance has already run when the absolute output completes
+    {'baseline': True, 'custom_rate': 1.0, 'customs': {}, 'disorder': 0.0, 'fail_rate': 0.0, 'fcp': 3, 'icp': 1, 'ops': [{'cmd': 'restart', 'mode': 'now-now', 'tick': 9}], 'opt': [['a', 'failed', True], ['a', 'succeeded', True], ['b', 'succeeded', False], ['c', 'succeeded', False]], 'queues': {}, 'runahead': 1, 'sections': [{'lines': [{'lhs': None, 'rhs': 'a'}, {'lhs': None, 'rhs': 'b'}, {'lhs': None, 'rhs': 'c'}, {'lhs': {'args': [{'off': 0, 'out': 'succeeded', 'task': 'a'}, {'args': [{'off': -2, 'out': 'succeeded', 'task': 'b'}, {'abs': 0, 'out': 'succeeded', 'task': 'c'}], 'op': 'and'}], 'op': 'or'}, 'rhs': 'b'}, {'lhs': {'abs': 0, 'out': 'succeeded', 'task': 'a'}, 'rhs': 'c'}], 'rec': 'P1'}], 'seed': 510256938, 'tasks': ['a', 'b', 'c']},
 ]
 STREAMS = [SchedStream("C45", name="sched-abs", feat={"abs": "many", "restart": True}, n_quick=28, n_thorough=600,
                        corpus=_CORPUS)]
